@@ -1323,6 +1323,15 @@ static void pid_controller(int order, unsigned opr, int kind_e, int kind_ec, vf_
     /* canon: universes [-1,1] and [-2,2] (as test/pid_fuzzy.h), so that grid points and mid-flanks are exact */
     tab_build(&me, kind_e, order, (canon || vf_chance(r, 1, 2)) ? 1 : vf_logu(r, -2, 3), r);
     tab_build(&mec, kind_ec, order, (canon || vf_chance(r, 1, 2)) ? 2 : vf_logu(r, -2, 3), r);
+    if (vf_chance(r, 1, 4))
+    {
+        /* ONE array as the membership table of both inputs (the usual normalised set-up: a_pid_fuzzy_set_rule(ctx, n, m, m, ...)): pointer equality of two
+           read-only arguments is a relation that separately generated tables never have (seeded change C13-K: "walk a shared table once" when mec == me and
+           ec == e, which holds on the first sample after zeroing, leaves the column indices aliased to the row offsets) */
+        free(mec.tab);
+        mec = me;
+        VF_COUNT("pid_fuzzy-one-table-for-both-inputs");
+    }
     for (g = 0; g < 3; ++g)
     {
         double sc = vf_chance(r, 1, 2) ? 1 : vf_logu(r, -3, 3);
@@ -1529,8 +1538,8 @@ static void pid_controller(int order, unsigned opr, int kind_e, int kind_ec, vf_
     free(ctx);
     free(buf);
     for (g = 0; g < 3; ++g) { free(mk[g]); }
+    if (mec.tab != me.tab) { free(mec.tab); }
     free(me.tab);
-    free(mec.tab);
 }
 
 /* "its scratch buffer of the documented size is never overrun" at EVERY start address the documentation allows: a_pid_fuzzy_set_bfuzz
